@@ -6,7 +6,7 @@ executes _whawty_check_password symbolically (llsym) against a scripted, nondete
 socket environment. Every obligation is discharged by z3; counterexamples are replayed against
 the natively compiled module (ASan) talking to a scripted socketpair server.
 """
-import os, sys, json, time, subprocess, tempfile, shutil, argparse, itertools
+import os, sys, json, time, subprocess, tempfile, shutil, argparse, itertools, re
 HERE = os.path.dirname(os.path.abspath(__file__))
 sys.path.insert(0, HERE)
 import z3
@@ -135,10 +135,56 @@ class Stubs:
         if p.region == 0:
             return None
         r = st.regions.get(p.region)
+        if r is not None and r.foreign:
+            raise Violation("memory", "free of memory the module does not own (%s)" % r.name)
         if r is None or r.freed or not r.heap or p.off != 0:
             raise Violation("memory", "invalid or double free")
         r.freed = True
         return None
+    # --- libpam (entry-level scenarios): the items live in memory the module does not own ---
+    def s_pam_get_user(self, eng, st, a, wl):
+        st.trace.append("pam_get_user")
+        if not st.env.get("get_user_ok", True):
+            return bv(3, 32)   # PAM_SERVICE_ERR
+        eng.store(st, a[1], "i8*", Ptr(st.env["user_rid"], 0))
+        return bv(0, 32)
+    def s_pam_get_item(self, eng, st, a, wl):
+        kind = st.env.get("authtok", "present")
+        st.trace.append("pam_get_item(AUTHTOK)=" + kind)
+        if kind == "err":
+            return bv(4, 32)   # PAM_SYSTEM_ERR
+        eng.store(st, a[2], "i8*", Ptr(st.env["authtok_rid"], 0) if kind == "present" else NULL)
+        return bv(0, 32)
+    def s_pam_prompt(self, eng, st, a, wl):
+        kind = st.env.get("prompt", "ok")
+        st.trace.append("pam_prompt=" + kind)
+        if kind == "err":
+            return bv(19, 32)  # PAM_CONV_ERR
+        if kind == "again":
+            return bv(30, 32)  # PAM_CONV_AGAIN
+        if kind == "null":
+            eng.store(st, a[2], "i8*", NULL)
+            return bv(0, 32)
+        src = list(st.env["pw_bytes"])
+        rid = eng.new_region(st, len(src) + 1, "prompt response", heap=True)   # the module owns (and frees) the response
+        st.regions[rid].data = src + [bv(0, 8)]
+        eng.store(st, a[2], "i8*", Ptr(rid, 0))
+        return bv(0, 32)
+    def s_pam_set_item(self, eng, st, a, wl):
+        st.trace.append("pam_set_item")
+        return bv(0 if st.env.get("set_item_ok", True) else 5, 32)
+    def s_pam_strerror(self, eng, st, a, wl):
+        return self.s_strerror(eng, st, a, wl)
+    def s_atoi(self, eng, st, a, wl):
+        bs = self.cstr(eng, st, a[0])
+        if not all(z3.is_bv_value(z3.simplify(b)) for b in bs):
+            raise ValueError("atoi on symbolic text")
+        t = bytes(z3.simplify(b).as_long() for b in bs).decode("latin1")
+        mm = re.match(r"[ \t\n\v\f\r]*([+-]?)(\d*)", t)
+        v = int(mm.group(2) or "0")
+        if mm.group(1) == "-":
+            v = -v
+        return bv(v & 0xffffffff, 32)
     def s_snprintf(self, eng, st, a, wl):
         dst, size = a[0], z3.simplify(a[1]).as_long()
         fmt = bytes(b.as_long() for b in self.cstr(eng, st, a[2]))
@@ -155,6 +201,13 @@ class Stubs:
         return None
     def s_select(self, eng, st, a, wl):
         env = st.env
+        if isinstance(a[4], Ptr) and a[4].region != 0:
+            sec = z3.simplify(eng.load(st, a[4], "i64"))
+            if z3.is_bv_value(sec) and sec.as_signed_long() < 0:
+                # select(2): EINVAL for a negative timeout - every time
+                self.set_errno(eng, st, 22)
+                st.trace.append("select=-1/EINVAL")
+                return bv(-1 & 0xffffffff, 32)
         readphase = isinstance(a[1], Ptr) and a[1].region != 0
         if not readphase:
             plan = env["wselect"]
@@ -259,6 +312,69 @@ def initial_state(eng, mod, ulen, plen, env, errno0):
     fn = mod.funcs["@_whawty_check_password"]
     fr = llsym.Frame(fn)
     fr.env[fn.params[0][1]] = ctx
+    st.frames.append(fr)
+    return st, ub, pb
+
+ENTRY_OPTIONS = [[], ["debug"], ["use_first_pass"], ["try_first_pass"], ["not_set_pass"], ["use_first_pass", "debug"],
+                 ["try_first_pass", "not_set_pass"], ["sock=/x"], ["sock="], ["sock=/a", "sock=/b"], ["timeout=5"], ["timeout=0"],
+                 ["timeout=-1"], ["timeout="], ["timeout=abc"], ["timeout=007"], ["timeout=-2147483648"], ["bogus"], ["use_first_pass", "timeout=-1"]]
+
+def entry_scenarios(tier):
+    """scenarios entering at pam_sm_authenticate: (description, argv, env-factory)"""
+    if ENCODER_ONLY:
+        return
+    combos = []
+    for opts in ENTRY_OPTIONS:
+        for authtok in ("present", "null", "err"):
+            for prompt in ("ok", "null"):
+                combos.append((opts, authtok, prompt, True, True))
+    for opts in ([], ["try_first_pass"], ["not_set_pass"]):
+        combos.append((opts, "null", "err", True, True))
+        combos.append((opts, "null", "again", True, True))
+        combos.append((opts, "null", "ok", False, True))    # pam_set_item fails
+        combos.append((opts, "present", "ok", True, False))  # pam_get_user fails
+    replies = [(b"OK", "close"), (b"NO", "close")]
+    if tier == "thorough":
+        replies += [(b"OK", "silence"), (None, "close")]
+    for (opts, authtok, prompt, set_ok, user_ok) in combos:
+        for (prefix, ending) in replies:
+            def mk(authtok=authtok, prompt=prompt, set_ok=set_ok, user_ok=user_ok, prefix=prefix, ending=ending):
+                return dict(socket_ok=True, connect_ok=True, write_plan=[], wselect=[], reads=[("data", 4), (ending,)],
+                            reply=reply_bytes(2, 2, prefix), rpos=0, authtok=authtok, prompt=prompt, set_item_ok=set_ok, get_user_ok=user_ok)
+            yield ("entry args=%s authtok=%s prompt=%s set_item=%s get_user=%s reply=%s end=%s" %
+                   (" ".join(opts) or "-", authtok, prompt, "ok" if set_ok else "err", "ok" if user_ok else "err", prefix.decode() if prefix else "any", ending), opts, mk)
+
+def initial_state_entry(eng, mod, argv, env, errno0, ulen=2, plen=2):
+    """a call of pam_sm_authenticate(pamh, 0, argc, argv): user and AUTHTOK are items of the PAM
+    library (memory the module does not own)"""
+    st = llsym.State()
+    st.env = env
+    rid = eng.new_region(st, 4, "errno")
+    eng.store(st, Ptr(rid, 0), "i32", errno0)
+    ub, pb = sym_string("user", ulen), sym_string("pw", plen)
+    for b in ub + pb:
+        st.pc.append(b != 0)
+    ur = eng.new_region(st, ulen + 1, "PAM_USER item")
+    st.regions[ur].data = ub + [bv(0, 8)]
+    st.regions[ur].foreign = True
+    ar = eng.new_region(st, plen + 1, "PAM_AUTHTOK item")
+    st.regions[ar].data = pb + [bv(0, 8)]
+    st.regions[ar].foreign = True
+    env["user_rid"], env["authtok_rid"], env["pw_bytes"] = ur, ar, pb
+    ph = eng.new_region(st, 8, "pam handle")
+    st.regions[ph].foreign = True
+    av = eng.new_region(st, 8 * max(1, len(argv)), "argv")
+    for i, o in enumerate(argv):
+        orr = eng.new_region(st, len(o) + 1, "argv[%d]" % i)
+        st.regions[orr].data = [bv(c, 8) for c in o.encode()] + [bv(0, 8)]
+        st.regions[orr].foreign = True
+        eng.store(st, Ptr(av, 8 * i), "i8*", Ptr(orr, 0))
+    st.regions[av].foreign = True
+    fn = mod.funcs["@pam_sm_authenticate"]
+    fr = llsym.Frame(fn)
+    vals = [Ptr(ph, 0), bv(0, 32), bv(len(argv), 32), Ptr(av, 0)]
+    for (pt, pn), v in zip(fn.params, vals):
+        fr.env[pn] = v
     st.frames.append(fr)
     return st, ub, pb
 
@@ -375,12 +491,16 @@ def run_scenarios(argt):
     samples = []
     nscen = 0
     errno0 = z3.BitVec("errno_on_entry", 32)
-    for idx, (desc, ulen, plen, mk) in enumerate(scenarios(tier)):
+    allscen = [(d, u, p_, m, None) for (d, u, p_, m) in scenarios(tier)] + [(d, 2, 2, m, argv) for (d, argv, m) in entry_scenarios(tier)]
+    for idx, (desc, ulen, plen, mk, argv) in enumerate(allscen):
         if idx % nw != wi:
             continue
         nscen += 1
         eng = llsym.Engine(mod, stubs)
-        st, ub, pb = initial_state(eng, mod, ulen, plen, mk(), errno0)
+        if argv is None:
+            st, ub, pb = initial_state(eng, mod, ulen, plen, mk(), errno0)
+        else:
+            st, ub, pb = initial_state_entry(eng, mod, argv, mk(), errno0, ulen, plen)
         finished, viols = eng.run(st)
         for k in ("queries", "sat", "unsat", "paths", "mem_checks"):
             setattr(total, k, getattr(total, k) + getattr(eng.stats, k))
@@ -427,6 +547,8 @@ def run_scenarios(argt):
                     record("request-bytes-equal-the-go-encoder", "bytes written differ from be16(len)+bytes per field (clipped at 256), empty service and realm", s, z3.Not(cond))
                 else:
                     discharged += 1
+            if argv is not None:
+                continue   # entry level: every failure of the PAM library side keeps its own (non-success) code
             obligations += 1
             c4 = z3.And(res != PAM_SUCCESS, res != PAM_AUTH_ERR, res != PAM_AUTHINFO_UNAVAIL)
             if eng.feasible(s, c4):
@@ -504,9 +626,12 @@ def run(a, work, t0, seed):
                                     "replies": "declared length in {0,1,2,3,5,256,257,300,65535} with 0..300 body bytes of arbitrary content, delivered whole / byte-wise / header+body / all-but-one, then close or silence; one EINTR at the first or second select",
                                     "failures": "socket/connect failure, write error, short writes, zero write, select timeout/EINTR in the write phase, read error",
                                     "loops": "a block entered more than 600 times on one path is reported as unbounded (persistent end-of-stream / silence are persistent conditions)"},
-                            outside_claim=["_whawty_ctx_init / _whawty_parse_args / _whawty_get_password (PAM library interaction)", "real timing", "fd >= FD_SETSIZE"],
+                            outside_claim=["real timing", "fd >= FD_SETSIZE", "allocation failure (strdup returns NULL)", "option strings other than the listed menu"],
+                            entry_level="pam_sm_authenticate(pamh, 0, argc, argv) with the option lists " + "; ".join(" ".join(o) or "(none)" for o in ENTRY_OPTIONS) +
+                                        " x PAM_AUTHTOK present / absent / error x conversation answers / returns NULL / fails / not ready x pam_set_item, pam_get_user failing; PAM_USER, PAM_AUTHTOK, argv and the handle are memory the module does not own (a store or free into them is a memory error); select with a negative timeout fails with EINVAL every time",
                             explanation="symbolic execution of the clang -O0 LLVM IR of pam_whawty.c regenerated on this run"),
-              assumptions=["libc/syscall stubs follow the man pages: read returns -1, 0 or 1..len and does not touch errno on success; select returns -1/EINTR, 0 or 1; errno is arbitrary on entry",
+              assumptions=["libpam stubs: pam_get_user / pam_get_item hand out pointers into library-owned memory, pam_prompt hands over a malloc'ed response the module must free, atoi as in C",
+                           "libc/syscall stubs follow the man pages: read returns -1, 0 or 1..len and does not touch errno on success; select returns -1/EINTR, 0 or 1; errno is arbitrary on entry",
                            "logging (_whawty_logf) has an empty body", "strings passed in are NUL-terminated with non-NUL content"],
               wall_s=round(wall, 2), violations=nviol)
     if not a.no_evidence and a.encoder_only:
@@ -568,7 +693,8 @@ def concretise(v):
     pw = [val(z3.BitVec("pw_%d" % i, 8)) or 66 for i in range(v["plen"])]
     reply = [val(b) for b in env["reply"]]
     return dict(user=user, password=pw, reply=reply, errno_on_entry=val(z3.BitVec("errno_on_entry", 32)), scenario_env=dict(
-        socket_ok=env["socket_ok"], connect_ok=env["connect_ok"]))
+        socket_ok=env["socket_ok"], connect_ok=env["connect_ok"], authtok=env.get("authtok"), prompt=env.get("prompt"),
+        set_item_ok=env.get("set_item_ok"), get_user_ok=env.get("get_user_ok")))
 
 def replay_native(repo, work, v, cex):
     """compile pam_whawty.c with ASan + the replay driver and run the scenario; returns yes/no/error"""
@@ -587,12 +713,17 @@ def replay_native(repo, work, v, cex):
         f.write("password %s\n" % bytes(cex["password"]).hex())
         f.write("reply %s\n" % bytes(cex["reply"]).hex())
         f.write("desc %s\n" % desc)
+        se = cex.get("scenario_env", {})
+        if desc.startswith("entry "):
+            args = desc.split(" args=")[1].split(" authtok=")[0]
+            f.write("args %s\n" % ("" if args == "-" else args))
+            f.write("authtok %s\nprompt %s\nset_item %d\nget_user %d\n" % (se.get("authtok"), se.get("prompt"), 1 if se.get("set_item_ok") else 0, 1 if se.get("get_user_ok") else 0))
     try:
         r = subprocess.run([exe, scen], capture_output=True, text=True, timeout=12, env=dict(os.environ, ASAN_OPTIONS="detect_leaks=0"))
     except subprocess.TimeoutExpired:
         return "yes" if v["assert_id"] == "returns-within-bounded-time" else "no (timeout)"
     out = r.stdout + r.stderr
-    if "AddressSanitizer" in out:
+    if "AddressSanitizer" in out or "AUTHTOK_INTACT 0" in out:
         return "yes" if v["assert_id"] == "no-memory-errors" else "no (asan)"
     if v["assert_id"] == "success-only-on-explicit-OK":
         return "yes" if "RESULT 0" in out and "REPLY_OK 0" in out else "no"
